@@ -74,7 +74,7 @@ def _cfg_for(site, subsystem_on):
         over["t2"] = {"quality": {"enabled": False, "shadow": on}}
     if site == "cache_invalidation":
         over["t4"]["cache_bust_mode"] = "on-apply"
-    return W.make_cfg(over)
+    return W.make_cfg(over, memo=("c20", site, True if subsystem_on else False))
 
 
 def _state_for(site):
@@ -208,7 +208,7 @@ def boot_garbage(gi: int, hi: int, raises: bool) -> bool:
 
     def run(with_file):
         W.reset_globals()
-        cfg = W.make_cfg(copy.deepcopy(BASE))
+        cfg = W.make_cfg(copy.deepcopy(BASE), memo="c20boot")
         state = W.make_state()
         state["_boot_loaded"] = False
         ctx = W.make_ctx(cfg, turn_id=1, agent="A")
